@@ -10,6 +10,7 @@ digest()   byte-level digest of everything observable about a value (purity
 import functools
 import hashlib
 import inspect
+import json
 import os
 import sys
 import types
@@ -237,6 +238,34 @@ _CSYS_CACHE_ATTRS = {
 }
 
 
+# Observable state of quara objects.  A purity verdict ("operand modified") is about the observable value of an object,
+# not about private caches / memos that a legitimate implementation may fill lazily during a query.  The attribute
+# names that make up the state of every quara class ON THE PINNED TREE were recorded once (tools/record_attrs.sh ->
+# qv/observable_attrs.json); for a class in that table only those attributes are digested, so an attribute that a later
+# change of the library introduces (a memo, a lazily built table) does not turn a query into a "mutation".  A change of
+# observable value still shows: the public accessors of the pinned tree read exactly the recorded attributes, and a
+# change that re-routes them is judged by the value oracles (reference model / twin), not by the purity digest.
+_OBS_PATH = os.path.join(os.path.dirname(os.path.abspath(__file__)), "observable_attrs.json")
+try:
+    with open(_OBS_PATH) as _f:
+        _OBS = {k: frozenset(v) for k, v in json.load(_f).items()}
+except Exception:  # noqa: BLE001
+    _OBS = {}
+_REC_PATH = os.environ.get("QV_RECORD_ATTRS")
+_REC = {}
+if _REC_PATH:
+    import atexit
+
+    def _dump_rec():
+        try:
+            with open(f"{_REC_PATH}.{os.getpid()}.json", "w") as f:
+                json.dump({k: sorted(v) for k, v in _REC.items()}, f)
+        except Exception:  # noqa: BLE001
+            pass
+
+    atexit.register(_dump_rec)
+
+
 def _feed_array(h, a):
     a = np.asarray(a)
     h.update(str(a.dtype).encode())
@@ -298,11 +327,17 @@ def _feed(h, x, seen, depth=0):
         h.update(repr(x).encode())
         return
     is_csys = type(x).__name__ == "CompositeSystem"
+    cname = f"{mod}.{type(x).__qualname__}"
+    known = _OBS.get(cname) if mod.startswith("quara") else None
+    if _REC_PATH and mod.startswith("quara"):
+        _REC.setdefault(cname, set()).update(d)
     for k in sorted(d):
         if is_csys and k in _CSYS_CACHE_ATTRS:
             continue  # lazily built tables: legitimately filled/dropped
         if k.startswith("__"):
             continue
+        if known is not None and k not in known:
+            continue  # not part of the state of this class on the pinned tree (see _OBS above)
         h.update(k.encode())
         _feed(h, d[k], seen, depth + 1)
     return
